@@ -236,7 +236,8 @@ def _plot_contour(case, ctx, rng):
     ctx.cls("design_conditions", case["dc"])
     coords = _flat(con.coordinates)
     swap = case["swap"]
-    sample = np.abs(ref.sample(200, rng)) if case["sample"] else None
+    # (size as an input class: a sample of 1, 2 (= n_dim), 3 rows as well as a few hundred)
+    sample = np.abs(ref.sample([200, 2, 1, 3, 200, 2][int(case["sub"]) % 6], rng)) if case["sample"] else None
     dc = None
     if case["dc"] == "true":
         dc = True
